@@ -339,7 +339,7 @@ class C03Engine(Engine):
         ncl = cfg.choice([1, 1, 2, 3])
         clients = {}
         for c in range(ncl):
-            n = wl.randint(1, 5 if ncl == 1 else 3)
+            n = wl.randint(1, 5 if ncl == 1 else 3) + (wl.randint(0, 3) if tier == "thorough" else 0)
             clients[f"c{c}"] = [self._gen_op(wl, objects) for _ in range(n)]
         order = [c for c, p in clients.items() for _ in p]
         sch.shuffle(order)
